@@ -681,6 +681,29 @@ let q_outcome (it : item) (args : string list) : string =
     res_str (fun () -> "ok") (outcome dv it) ^ "|rules=" ^ String.concat "," (List.map rule_name rules)
   | _ -> failwith "bad outcome query"
 
+(* ----- C19: the proved checker on references extracted from the real generated tokens ----- *)
+let pref_of (t : string) : pref =
+  let abs = String.length t >= 2 && String.sub t 0 2 = "::" in
+  let body = if abs then String.sub t 2 (String.length t - 2) else t in
+  let segs = List.filter (fun x -> x <> "") (String.split_on_char ':' body) in
+  { p_abs = abs; p_segs = List.map str_of_string segs }
+let q_refsok (args : string list) : string =
+  match args with
+  | strum :: binders :: user :: refs ->
+    let csv s = List.filter (fun x -> x <> "") (String.split_on_char ',' s) in
+    let strip2 s = String.sub s 2 (String.length s - 2) in
+    let c = { c_strum = pref_of strum; c_binders = List.map str_of_string (csv (strip2 binders));
+              c_user = List.map pref_of (csv (strip2 user)) } in
+    let gref_of t = (match t.[0] with
+      | 'P' -> GPath (pref_of (String.sub t 1 (String.length t - 1)))
+      | 'M' -> GMacro (pref_of (String.sub t 1 (String.length t - 1)))
+      | 'U' -> GUse (pref_of (String.sub t 1 (String.length t - 1)))
+      | _ -> failwith "bad ref") in
+    let bad = List.filter (fun t -> not (ref_ok c (gref_of t))) refs in
+    let all_ok = refs_ok c (List.map gref_of refs) in
+    if all_ok && bad = [] then "ok" else "bad:" ^ String.concat ";" bad
+  | _ -> failwith "bad refsok query"
+
 let rec dispatch (k : int) (it : item) (kind : string) (args : string list) : string =
   match kind with
   | "repr" -> q_repr k it args
@@ -712,6 +735,7 @@ let rec dispatch (k : int) (it : item) (kind : string) (args : string list) : st
        | [] -> failwith "bad ondisc query")
   | "casing" -> q_casing args
   | "outcome" -> q_outcome it args
+  | "refsok" -> q_refsok args
   | _ -> failwith ("unknown query kind " ^ kind)
 
 let () =
